@@ -8,7 +8,7 @@ from vlib import coq
 from vlib.refloop import run_ref
 
 GENERATORS = []
-COQ_TARGETS = ['Cursor/BinaryCorr.vo', 'Passes/GcdaCorr.vo']
+COQ_TARGETS = ['Cursor/BinaryCorr.vo', 'Passes/GcdaCorr.vo', 'Passes/PassCorr.vo']
 RULE = ('state probes: every (index,chunk,instances) with index<instances<=NMAX, 1<=chunk<=instances, '
         'advance/end/real_chunk/advance_on_success(0..n+1) of the real BinaryState vs the model; '
         'monotone runs: real LinesPass("None") / LineMarkersPass under the reference loop for every '
@@ -331,11 +331,31 @@ def run_impl_mode(ctx, kind, n, mode, param):
             return param[k['k']] if k['k'] < len(param) else False
     steps, final, reason = run_ref(pass_, p, interesting, ctx.tmp, observe=observe, max_steps=(n + 2) * (n + 3) + 20)   # above the proved bound
     log = [(s.state_repr[0], s.state_repr[1], s.state_repr[2], s.accepted, count_instances(kind, s.before)) for s in steps]
+    lc = getattr(ctx, 'lines_corr', None)
+    if lc is not None and len(lc['lines' if kind.startswith('lines') else 'markers']) < lc['cap']:
+        # byte level (Passes/Edit.v, the model C06_lines_candidate_is_line_cut / C06_markers_candidate_is_marker_cut speak about):
+        # every candidate of the real run vs lines_transform / markers_transform, and the instance count the real pass
+        # continues with after an accepted candidate vs the lines / markers of that candidate
+        def ct(b):
+            return ('[' + ';'.join(str(x) for x in b) + ']%N') if b else '(@nil N)'
+        for j, s_ in enumerate(steps):
+            if s_.after is None or not s_.result.startswith('OK'):
+                continue
+            i_, e_, inst_ = s_.state_repr
+            if kind.startswith('lines'):
+                lc['lines'].append((f'({ct(s_.before)}, {i_}, {e_})', [len(s_.after)] + list(s_.after)))
+                if s_.accepted and j + 1 < len(steps):
+                    lc['nlines'].append((ct(s_.after), [steps[j + 1].state_repr[2]]))
+            else:
+                marks = sorted({l for l in re.findall(rb'[^\n]*\n|[^\n]+', s_.before) if re.search(rb'^\s*#\s*[0-9]+', l)})
+                ml = '[' + '; '.join(ct(m) for m in marks) + ']' if marks else '(@nil text)'
+                lc['markers'].append((f'({ct(s_.before)}, {ml}, {i_}, {e_})', [inst_, len(s_.after)] + list(s_.after)))
     return present(kind, final), log, reason
 
 
 def explore(ctx):
     rnd = random.Random(ctx.seed)
+    ctx.lines_corr = {'lines': [], 'nlines': [], 'markers': [], 'cap': 800 if ctx.quick() else 4000}
     nmax = 10 if ctx.quick() else 24
     nsub = 7 if ctx.quick() else 10
     # A. state probes
@@ -427,6 +447,17 @@ def explore(ctx):
                     ctx.nontriv(('gcda', text, req))
                 if why:
                     ctx.violation('binary-gcda-mono', f'gcda-binary on {text!r} required {list(req)}: {why}', {'kind': 'gcda', 'n': n, 'param': list(req)})
+    # the real lines / line-marker candidates and re-counted instances against the byte-level model, inside Coq
+    pimports = ['From CV Require Import Passes.Edit Passes.PassCorr.']
+    for key, fn in (('lines', 'run_lines'), ('nlines', 'run_nlines'), ('markers', 'run_markers')):
+        cs = ctx.lines_corr[key]
+        badl = coq.corr_eval('c06' + key, pimports, fn, cs, shard=300)
+        ctx.corr_cases += len(cs)
+        ctx.corr_disagree += len(badl)
+        ctx.count(f'bytes:model:{key}', len(cs))
+        for b in badl[:5]:
+            ctx.broke('correspondence', f'{fn} vs the real pass', f'case {cs[b][0][:200]} impl {cs[b][1][:60]}')
+    ctx.lines_corr = None
     # the real gcda candidates / cursor logs / final files against the model of Passes/Gcda.v, evaluated inside Coq
     gimports = imports + ['From CV Require Import Passes.Gcda Passes.GcdaCorr.']
     for key, fn in (('tr', 'gcda_tr_case'), ('rec', 'gcda_rec_case'), ('offs', 'gcda_offs_case'), ('run', 'gcda_run_case')):
@@ -530,7 +561,7 @@ def replay(ctx, payload):
 LEVEL_TEXT = ('Machine-checked theorems (Coq, closed under the global context) about a model of BinaryState and the '
               'sequential reduction loop: for every list, every verdict function and every required predicate — '
               'ranges in bounds, termination within (n+1)(n+2) candidates, exact result for monotone tests, all '
-              'singles tried and sweeps tiling 0..n when nothing was accepted, no skip after an accept; the IfPass cursor offers every range with both values; for gcda files the byte-level candidate built from the reported offsets is the record-level cut (every header, record sizes, cursor), is strictly shorter, and the pass\'s restarting loop is exact for monotone tests. The model is '
+              'singles tried and sweeps tiling 0..n when nothing was accepted, no skip after an accept; the IfPass cursor offers every range with both values; for gcda files the byte-level candidate built from the reported offsets is the record-level cut (every header, record sizes, cursor), is strictly shorter, and the pass\'s restarting loop is exact for monotone tests; the candidate of the lines / line-marker pass, read again, holds exactly the lines / markers of the file cut at [i,e) (bytes and instance lists agree). The model is '
               'tied to the real BinaryState / LinesPass / LineMarkersPass / GCDABinaryPass on every run by a correspondence check '
               'evaluated inside Coq; the property oracle is also evaluated directly on the real runs.')
 LEVEL_NOTE = ('Trusted: Coq kernel; hand-written model (validated each run against the code on exhaustive small state '
